@@ -276,7 +276,39 @@ class Explorer:
         fi = self.ctx.p.fn_of_node.get(id(s))
         if fi is not None:
             st.env[s.name] = ("fn", fi.qualname)
+            lam = self._nested_def_as_lambda(s)
+            if lam is not None:
+                try:
+                    st.env[s.name] = self.normalizer(st).norm(lam)
+                except AnalysisError:
+                    pass
         return [(st, None)]
+
+    def _nested_def_as_lambda(self, s):
+        """`def f(x): return <expr>` nested in a function is the lambda it spells out - provided nothing it captures is
+        re-bound after the definition (a closure sees the later value, a term built here would not)."""
+        if not isinstance(s, ast.FunctionDef) or s.decorator_list:
+            return None
+        body = [b for b in s.body if not (isinstance(b, ast.Expr) and isinstance(b.value, ast.Constant))]
+        if len(body) != 1 or not isinstance(body[0], ast.Return) or body[0].value is None:
+            return None
+        a = s.args
+        if a.vararg or a.kwarg or a.kwonlyargs or a.defaults or a.posonlyargs or not a.args:
+            return None
+        if any(isinstance(n, (ast.Yield, ast.YieldFrom, ast.Await, ast.NamedExpr)) for n in ast.walk(body[0].value)):
+            return None
+        params = {x.arg for x in a.args}
+        free = {n.id for n in ast.walk(body[0].value) if isinstance(n, ast.Name)} - params
+        outer = self.fn.node
+        for n in ast.walk(outer):
+            if isinstance(n, ast.Name) and isinstance(n.ctx, ast.Store) and n.id in free and \
+                    (n.lineno, n.col_offset) > (s.lineno, s.col_offset):
+                return None
+        lam = ast.Lambda(args=ast.arguments(posonlyargs=[], args=[ast.arg(arg=x.arg) for x in a.args], kwonlyargs=[],
+                                            kw_defaults=[], defaults=[]), body=body[0].value)
+        ast.copy_location(lam, s)
+        ast.fix_missing_locations(lam)
+        return lam
 
     x_AsyncFunctionDef = x_FunctionDef
 
